@@ -105,11 +105,24 @@ func RunStress(sim *vsim.Sim, c StressCase) vrep.Result {
 	case <-returned:
 	case <-time.After(60 * time.Second):
 		close(stop)
+		if _, serr := d.Settle(30 * time.Second); serr != nil {
+			return vrep.Result{Err: fmt.Errorf("%d Update calls had not returned 60 s after the last key; %v", atomic.LoadInt64(&pending), serr)}
+		}
 		return vrep.Result{Err: fmt.Errorf("%d Update calls had not returned 60 s after the last key: the interface is wedged", atomic.LoadInt64(&pending))}
 	}
-	_, serr := d.Settle(60 * time.Second)
+	// the last keys have returned: stop resizing (bounded: a resize blocked on the state lock never returns), then settle
 	close(stop)
-	pollers.Wait()
+	pollersDone := make(chan struct{})
+	go func() { pollers.Wait(); close(pollersDone) }()
+	select {
+	case <-pollersDone:
+	case <-time.After(30 * time.Second):
+		if _, serr := d.Settle(60 * time.Second); serr != nil {
+			return vrep.Result{Err: fmt.Errorf("after the last key: a resize has not returned for 30 s; %v", serr)}
+		}
+		<-pollersDone
+	}
+	_, serr := d.Settle(60 * time.Second)
 	if serr != nil {
 		return vrep.Result{Err: fmt.Errorf("after the last key: %v", serr)}
 	}
@@ -136,7 +149,11 @@ func RunStress(sim *vsim.Sim, c StressCase) vrep.Result {
 			continue
 		}
 		page := c.World.ThreadPage(it)
+		endless := it.Kind == "actor" && c.World.Actors[it.A].OutboxLoop != ""
 		for pos, item := range items {
+			if endless && pos > 0 {
+				continue // an endless timeline repeats its pages: nothing to compare with
+			}
 			want, exists := page.At(pos)
 			if !exists {
 				return vrep.Result{Err: fmt.Errorf("page %d (around %s) holds %q at position %d, where that thread has nothing", i, Identify(centre), Identify(item), pos)}
@@ -156,6 +173,11 @@ func GenStressCase(t *rapid.T) StressCase {
 	h := GenHistCase(t)
 	c := StressCase{World: h.World, Start: h.Start, ResizeMs: rapid.IntRange(1, 25).Draw(t, "resizems"), Jitter: int64(rapid.IntRange(1, 1<<30).Draw(t, "jitter")), Preload: rapid.IntRange(1, 5).Draw(t, "preload"),
 		HookMs: rapid.SampledFrom([]int{0, 0, 5, 20, 60}).Draw(t, "hookms")}
+	for i := range c.World.Actors {
+		if c.World.Actors[i].OutboxPer > 0 && rapid.SampledFrom([]int{0, 0, 0, 1}).Draw(t, "outboxloop") == 1 {
+			c.World.Actors[i].OutboxLoop = rapid.SampledFrom([]string{"self", "first"}).Draw(t, "loopkind")
+		}
+	}
 	for n := rapid.IntRange(2, 5).Draw(t, "nsizes"); n > 0; n-- {
 		c.Sizes = append(c.Sizes, [2]int{rapid.IntRange(1, 120).Draw(t, "w"), rapid.IntRange(2, 50).Draw(t, "h")})
 	}
